@@ -1230,7 +1230,10 @@ class Model:
                         numeric_groups[idx][numeric_part] = []
                     numeric_groups[idx][k] = categoric
 
-        return [categoric_group] + numeric_groups
+        # The redundancy analysis assumes lower order terms are visited first, whatever the
+        # order in which the terms were written.
+        groups = [categoric_group] + numeric_groups
+        return [dict(sorted(group.items(), key=lambda item: len(item[1]))) for group in groups]
 
     def _get_encoding_bools(self):
         """Determine encodings for terms containing at least one categorical variable.
